@@ -263,7 +263,7 @@ func runC11_9(c *core.Ctx) {
 func init() {
 	register(&core.Rule{ID: "C11.10", Prop: "C11", MinSites: 4,
 		Desc: "head and tail are nil together: started from a list whose head and tail are both nil or both set, each list primitive (pop, pushFront, pushBack, Reset) returns with the two fields again both nil or both set on every path – a tail left behind by the last pop makes the next pushFront/pushBack link new segments behind a node that is no longer in the list",
-		Run: runC11_10})
+		Run:  runC11_10})
 }
 
 func runC11_10(c *core.Ctx) {
@@ -345,7 +345,11 @@ func runC11_10(c *core.Ctx) {
 				if isNil {
 					want = vNil
 				}
-				switch fieldOf(x) {
+				fx := fieldOf(x)
+				if fx == nil {
+					fx = aliasedField(f, x, e.Cond.Pos(), fieldOf)
+				}
+				switch fx {
 				case a.head:
 					if h != vAny && h != want {
 						return -1
@@ -391,4 +395,46 @@ func runC11_10(c *core.Ctx) {
 			c.Ok(f.Name, "head and tail nil together", f.Decl.Pos(), "both start shapes lead to a consistent shape on every return")
 		}
 	}
+}
+
+// aliasedField resolves `b` in a test `b == nil` to the receiver field it was copied from
+// (`b := llb.head`), provided b is assigned exactly once, outside any loop, before the test, and
+// the field is not assigned between the copy and the test.
+func aliasedField(f *fn, x ast.Expr, at token.Pos, fieldOf func(ast.Expr) *types.Var) *types.Var {
+	id, ok := ast.Unparen(x).(*ast.Ident)
+	if !ok {
+		return nil
+	}
+	v, ok := f.Info.Uses[id].(*types.Var)
+	if !ok || v.IsField() {
+		return nil
+	}
+	def := singleDef(f, v)
+	if def == nil || def.Pos() >= at {
+		return nil
+	}
+	fl := fieldOf(def)
+	if fl == nil {
+		return nil
+	}
+	okk := true
+	ast.Inspect(f.Decl.Body, func(n ast.Node) bool {
+		switch y := n.(type) {
+		case *ast.ForStmt, *ast.RangeStmt:
+			if y.Pos() <= def.Pos() && def.End() <= y.End() {
+				okk = false
+			}
+		case *ast.AssignStmt:
+			for _, l := range y.Lhs {
+				if fieldOf(l) == fl && y.Pos() > def.Pos() && y.Pos() < at {
+					okk = false
+				}
+			}
+		}
+		return okk
+	})
+	if !okk {
+		return nil
+	}
+	return fl
 }
